@@ -56,6 +56,10 @@ SAFE_NEG = {
     "Gc::new without value": "let _g: Gc<Void> = Gc::new(mc);",
     "ZstCache::alloc without value": "let c = ZstCache::<8>::new(mc); let _g: Gc<Void> = c.alloc(mc);",
     "ZstCache::alloc_static without value": "let c = ZstCache::<8>::new(mc); let _g: Gc<private::Token> = c.alloc_static(mc);",
+    "copy_slice of non-Copy elements (header+slice builder)": "let src = [String::from(\"x\")]; let _g = GcSliceWithHeaderBuilder::<u8, String>::new(1).write_header(0).copy_slice(mc, &src);",
+    "copy_slice of non-Copy elements (slice builder)": "let src = [String::from(\"x\")]; let _g = GcSliceBuilder::<String>::new(1).copy_slice(mc, &src);",
+    "new_slice of non-Copy elements": "let src = [String::from(\"x\")]; let _g = gc_arena::GcSlice::<String>::new_slice(mc, &src);",
+    "unsize macro with unsafe argument": "let g = Gc::new(mc, 1u32); let p = Gc::as_ptr(g); let _d = gc_arena::unsize!(Gc::from_ptr(p) => dyn std::fmt::Debug);",
     "construct private token": "let _t = private::Token(());",
     "GcBuilder::write without value": "let b = GcBuilder::<gc_arena::Static<Void>>::new().unwrap_static(); let _g: Gc<Void> = b.write(mc);",
     "unsize to unrelated trait": "let g = Gc::new(mc, Some('x')); let _e = gc_arena::unsize!(g => dyn std::error::Error);",
